@@ -45,7 +45,7 @@ BOUNDS = {
               'text': 'every NUL-free scalar value per character (pattern characters as concrete classes, every other value symbolic per UTF-8 width)'},
     'thorough': {'text_chars': '1..6 (1..4 with type n-grams)', 'shapes': sorted(SHAPES) + sorted(THOROUGH_SHAPES), 'weights': 'signed 16-bit', 'text': 'every NUL-free scalar value'},
 }
-OUTSIDE = ('longer texts; model shapes (sets of patterns / window sizes) outside the catalogue; ill-formed models (weight counts other than one per covered position); '
+OUTSIDE = ('for type window 3 the quick tier runs the real add_scores on a score table given by its specification (the real 8^6 table construction runs in the thorough tier); longer texts; model shapes (sets of patterns / window sizes) outside the catalogue; ill-formed models (weight counts other than one per covered position); '
            'daachorse itself (contract model: DESIGN.md appendix B); the 8^6 type-score table of window 3 only in thorough')
 EXPLANATION = ('Predictor::new and Predictor::predict with all scorers (char/type, boundary/cache, suffix merging, fixed/variable weight layout) are executed '
                'symbolically (MIR) on a model whose weights and bias are symbolic and a text of symbolic characters; z3 decides on every path that each '
@@ -69,6 +69,9 @@ def jobs(tier, seed):
     if tier == 'thorough':
         shapes.update(THOROUGH_SHAPES)
     js = []
+    for name in CACHE3_SHAPES:
+        for n in range(1, (3 if tier == 'quick' else 5) + 1):
+            js.append({'name': '%s/n%d' % (name, n), 'shape': name, 'n': n, 'cache3': True})
     for name, sh in shapes.items():
         for n in text_len_range(tier, sh):
             js.append({'name': '%s/n%d' % (name, n), 'shape': name, 'n': n})
@@ -77,7 +80,70 @@ def jobs(tier, seed):
 
 
 def get_shape(name):
-    return SHAPES.get(name) or THOROUGH_SHAPES[name]
+    return SHAPES.get(name) or THOROUGH_SHAPES.get(name) or CACHE3_SHAPES[name]
+
+
+# ---------------------------------------------------------------------------------------------
+# type window 3: the 8^6-entry score table of TypeScorerBoundaryCache::new costs 262 144 loop iterations per construction, which the
+# quick tier cannot afford.  Decomposition: the table CONTENT is produced by the real `new` for windows 1 and 2 (quick) and 3 (thorough,
+# shape t3-cache); here the real `add_scores` / `predict` run for window 3 on a table whose entries are given lazily by the table's
+# specification (entry(seqid) = sum of the weights of the type n-grams occurring in the decoded 6-type sequence, for the middle boundary).
+CACHE3_SHAPES = {
+    'cache3-spec-table': {'cw': 1, 'tw': 3, 'type': ['H', 'HK', 'KHK']},
+}
+
+
+class LazyCells:
+    def __init__(self, n, fn):
+        self.n = n; self.fn = fn; self.cells = {}
+
+    def __len__(self):
+        return self.n
+
+    def __getitem__(self, i):
+        if isinstance(i, slice):
+            raise Unsupported('slice of the lazy score table')
+        if i < 0 or i >= self.n:
+            raise IndexError(i)
+        c = self.cells.get(i)
+        if c is None:
+            c = self.cells[i] = Cell(self.fn(i))
+        return c
+
+
+def build_cache3(e, prog, shape):
+    ms = P.fill_model(e, shape)
+    W = shape['tw']
+    size = 2 * W
+
+    def entry(seqid):
+        seq = []
+        x = seqid
+        for _ in range(size):
+            seq.append(x & 7); x >>= 3
+        seq.reverse()
+        if 7 in seq:
+            return Int(0, 32, True)
+        acc = Int(0, 32, True)
+        for g, ws in ms.type:
+            m = len(g)
+            for end in range(m, size + 1):
+                if seq[end - m:end] == list(g):
+                    k = size - end
+                    if k < len(ws):
+                        acc = e.binop('Add', acc, ws[k])
+        return acc
+    table = Seq([], elt='i32')
+    table.e = LazyCells(8 ** size, entry)
+    cache = P.mk_struct(prog, 'TypeScorerBoundaryCache', scores=table, window_size=u8(W), sequence_mask=usize((1 << (3 * size)) - 1))
+    names = prog.src.structs['PredictorData']
+    fields = {'char_scorer': none(), 'type_scorer': some(Enum('BoundaryCache', [cache], 'TypeScorer')), 'bias': ms.bias,
+              'tag_predictor': none(), 'n_tags': usize(0)}
+    pd = P.mk_struct(prog, 'PredictorData', **{k: v for k, v in fields.items() if k in names})
+    pn = prog.src.structs['Predictor']
+    pf = {'data': pd, 'tag_scores': False}
+    pred = P.mk_struct(prog, 'Predictor', **{k: v for k, v in pf.items() if k in pn})
+    return ms, Cell(pred)
 
 
 def build(e, prog, shape, predict_tags=False, concrete=None):
@@ -95,7 +161,10 @@ def make(e, progs, job):
     st = {}
 
     def harness(e):
-        ms, pcell = e.memo(('pred', job['shape']), lambda: build(e, prog, shape))
+        if job.get('cache3'):
+            ms, pcell = e.memo(('pred3', job['shape']), lambda: build_cache3(e, prog, shape))
+        else:
+            ms, pcell = e.memo(('pred', job['shape']), lambda: build(e, prog, shape))
         st['ms'] = ms
         ss = S.sym_string(e, 'x', job['n'], P.pattern_alphabet(shape), exclude='\0')
         st['s'] = ss
